@@ -100,7 +100,9 @@ def digest(r):
 def op(r):
     t = r.get()
     name = OPS.get(t, t)
-    if t in (0, 17): return (t, name, pkt(r))
+    if t in (0, 17):
+        p = pkt(r); r.take(r.get())
+        return (t, name, p)
     if t == 1:
         b = bytes(r.take(r.get()))
         pt = r.get()
@@ -111,7 +113,11 @@ def op(r):
     if t == 4: return (t, name, r.opt())
     if t in (5, 12, 13, 14): return (t, name, r.get())
     if 6 <= t <= 10: return (t, name, bool(r.get()))
-    if t == 15: return (t, name, [pkt(r) for _ in range(r.get())])
+    if t == 15:
+        l = []
+        for _ in range(r.get()):
+            l.append(pkt(r)); r.take(r.get())
+        return (t, name, l)
     if t == 16: return (t, name, setr(r))
     raise ValueError("bad op tag %s at %d" % (t, r.i))
 
@@ -124,14 +130,15 @@ def decode_case(line):
     while not r.done():
         start = r.i
         o = op(r)
+        toks = nums[start:r.i]
         pan = r.get()
         if pan:
-            steps.append(dict(op=o, panicked=True, span=(start, r.i)))
+            steps.append(dict(op=o, panicked=True, span=(start, r.i), op_tokens=toks))
             break
         ev = events(r)
         ret = setr(r)
         dg = digest(r)
-        steps.append(dict(op=o, panicked=False, events=ev, ret=ret, digest=dg, span=(start, r.i)))
+        steps.append(dict(op=o, panicked=False, events=ev, ret=ret, digest=dg, span=(start, r.i), op_tokens=toks))
     return hdr, steps, nums
 
 
